@@ -111,6 +111,14 @@ def run(scenario):
             clone2.persons.get_holder("salary")._memory_storage.put(numpy.array([7.0, 8.0], dtype=numpy.float32), __import__("openfisca_core").periods.period("2020-02"))
             if sim.get_array("salary", "2020-02").tolist() != [1.0, 2.0]:
                 bad.append(f"storing a new value for a period on the clone rewrote the array the original holds: {sim.get_array('salary', '2020-02').tolist()}")
+        elif scenario == "set-input-again-on-clone":
+            # the same variable and period given again on one side (an input overwritten) must not show on the other side
+            clone.set_input("salary", "2020-01", numpy.array([1.0, 2.0], dtype=numpy.float32))
+            if sim.get_array("salary", "2020-01").tolist() != [100.0, 50.0]:
+                bad.append(f"an input given again on the clone changed the original's value: {sim.get_array('salary', '2020-01').tolist()}")
+            sim.set_input("rent", "2020-01", numpy.array([9.0], dtype=numpy.float32))
+            if clone.get_array("rent", "2020-01").tolist() != [700.0]:
+                bad.append(f"an input given again on the original changed the clone's value: {clone.get_array('rent', '2020-01').tolist()}")
         elif scenario == "eternal-variable":
             from openfisca_core import variables, periods
             tbs, sim = build()
